@@ -85,6 +85,21 @@ where
     }
 }
 
+impl<F: Future> Drop for JoinAll<F> {
+    fn drop(&mut self) {
+        // Outputs of futures that already completed sit in the buffer until all are done;
+        // if we are dropped before that, they must be dropped here.
+        // (Once resolved, the buffer has been replaced by an empty one.)
+        for (i, out) in self.output.iter_mut().enumerate() {
+            if self.queue.tasks.get(i).is_none() {
+                // SAFETY: slot `i` is vacant, so its future completed and its output was
+                // written to `output[i]`, and the buffer has not been handed out yet.
+                unsafe { out.assume_init_drop() };
+            }
+        }
+    }
+}
+
 impl<F: Future> Future for JoinAll<F> {
     type Output = Vec<F::Output>;
 
